@@ -24,8 +24,10 @@ func init() {
 	register(&PropInfo{
 		ID:    "C24",
 		Title: "Credential extractors accept exactly what they are configured to accept",
-		Explanation: "Static-bearer half only. R-BEARER-EXACT: the Authorization value reaches subtle.ConstantTimeCompare through exactly HasPrefix(\"Bearer \") + TrimPrefix of the same constant and a []byte conversion (no TrimSpace/ToLower/Fields/Split); acceptance ⇔ compare == 1; the context returned is the one paired with the matching key in the same loop element; the loop has no early exit.",
-		NotCovered:  []string{"the XFCC parser's agreement with the header grammar for every input (ParseXfcc / splitRespectingQuotes / extractCN): a parser-equivalence question over all strings that no structural rule in reach decides — not applicable to this family"},
+		Explanation: "R-BEARER-EXACT: the Authorization value reaches subtle.ConstantTimeCompare through exactly HasPrefix(\"Bearer \") + TrimPrefix of the same constant and a []byte conversion (no TrimSpace/ToLower/Fields/Split); acceptance ⇔ compare == 1; the context returned is the one paired with the matching key in the same loop element; the loop has no early exit. " +
+			"XFCC half, structural clauses only. R-XFCC-SPLIT: splitRespectingQuotes cuts an element only on the delimiter with !inQuotes, the state toggles exactly on '\"', and a backslash escapes the next byte only inside quotes. R-XFCC-LEVELS: ParseXfcc splits the header on ',' and every element on ';' through that function (no raw strings.Split). " +
+			"R-XFCC-DECODE: the URL-decoded keys are exactly cert|uri|by via a checked url.QueryUnescape, the six keys are stored each into its own field, and a value is unquoted only when both ends are quotes. R-XFCC-IDENTITY: the default principal is extractCN(selected element's Subject), first→elements[0] and last→elements[len-1] under len != 0, extractCN returns the value of the first CN= RDN split on unescaped commas.",
+		NotCovered:  []string{"the XFCC parser's agreement with the header grammar for every input string (a parser-equivalence question over all strings): only the structural clauses above are decided"},
 		Assumptions: []string{"subtle.ConstantTimeCompare returns 1 exactly for equal byte slices"},
 		Run:         runC24,
 	})
@@ -273,6 +275,7 @@ func (c *Ctx) errorsAsTarget(fn *ssa.Function, name string) bool {
 
 func runC24(c *Ctx) {
 	u, r := c.U, c.R
+	runC24Xfcc(c)
 	ba := c.Fn("R-BEARER-EXACT", "BearerAuthenticate")
 	bs := c.Fn("R-BEARER-EXACT", "BearerAuthenticateStatic")
 	if ba == nil || bs == nil || len(ba.AnonFuncs) != 1 {
